@@ -364,6 +364,43 @@ func waitCall(c *call, d time.Duration) bool {
 	}
 }
 
+// gateHolding reports whether one of the scenario's store gates is holding a store operation right now.
+func (r *runner) gateHolding() bool {
+	r.faultMu.Lock()
+	defer r.faultMu.Unlock()
+	for _, g := range r.gates {
+		if g.taken && !isReleased(g) {
+			return true
+		}
+	}
+	return false
+}
+
+// waitCallUnlessHeld is waitCall, except that a call which cannot return because the HARNESS is holding a store
+// operation (a gate armed for another write caught this call's write: the scripted history and the real one
+// diverged) is not waited for: the environment is not responding by the harness's own doing, so this is no hang of
+// the engine. The call goes on in the background and is awaited once the gates are released.
+func (r *runner) waitCallUnlessHeld(c *call, d time.Duration) bool {
+	deadline := time.Now().Add(d)
+	heldSince := time.Time{}
+	for time.Now().Before(deadline) {
+		if waitCall(c, 100*time.Millisecond) {
+			return true
+		}
+		if r.gateHolding() {
+			if heldSince.IsZero() {
+				heldSince = time.Now()
+			} else if time.Since(heldSince) > 1500*time.Millisecond {
+				r.log.Add("HeldByGate", "call", c.name)
+				return true
+			}
+		} else {
+			heldSince = time.Time{}
+		}
+	}
+	return false
+}
+
 const (
 	enableWait = 250 * time.Millisecond
 	hangBound  = 40 * time.Second
@@ -410,7 +447,7 @@ func (r *runner) step(i int, st Step) {
 		r.armed = true
 		r.faultMu.Unlock()
 		c := r.async("Start", func() error { return e.LC.Start(r.ctx, PipelineID) })
-		if !waitCall(c, hangBound) {
+		if !r.waitCallUnlessHeld(c, hangBound) {
 			r.log.Add("Hang", "call", "Start")
 		}
 		r.started = true
